@@ -64,6 +64,11 @@ func c19File(c c19Case, a c19Action, n int) ([]byte, []byte) {
 				st.Args[0] = "AAAAAA"
 			}
 			sts = append(sts, st)
+		case "otherTypeTagA":
+			// a stanza of the OTHER SSH type that carries the identity's tag
+			st := refStanza(p, hx.RecSpec{Kind: other, Idx: 3}, fk, uint64(n*10+i))[0]
+			st.Args[0] = refStanza(p, c19Spec(c.Type, "A"), fk, 1)[0].Args[0]
+			sts = append(sts, st)
 		case "noargs":
 			t := "ssh-ed25519"
 			if c.Type == "rsa" {
@@ -108,6 +113,8 @@ func c19Check(c c19Case, st *stats.Run) error {
 			return []byte(hx.SSHPassphrase), nil
 		case "wrong":
 			return []byte("not the passphrase"), nil
+		case "empty":
+			return []byte{}, nil
 		}
 		return nil, errors.New("prompt cancelled")
 	})
@@ -222,14 +229,14 @@ func c19Gen(t *rapid.T) c19Case {
 		case 2:
 			a.Stanzas = []string{"B"}
 		case 3:
-			a.Stanzas = []string{rapid.SampledFrom([]string{"C", "X", "other", "Acase"}).Draw(t, "foreign")}
+			a.Stanzas = []string{rapid.SampledFrom([]string{"C", "X", "other", "Acase", "otherTypeTagA"}).Draw(t, "foreign")}
 		default:
 			m := rapid.IntRange(1, 4).Draw(t, "nst")
 			for j := 0; j < m; j++ {
-				a.Stanzas = append(a.Stanzas, rapid.SampledFrom([]string{"A", "B", "C", "X", "other", "noargs", "Acase"}).Draw(t, "st"))
+				a.Stanzas = append(a.Stanzas, rapid.SampledFrom([]string{"A", "B", "C", "X", "other", "noargs", "Acase", "otherTypeTagA"}).Draw(t, "st"))
 			}
 		}
-		a.Answer = rapid.SampledFrom([]string{"right", "right", "wrong", "error"}).Draw(t, "answer")
+		a.Answer = rapid.SampledFrom([]string{"right", "right", "wrong", "error", "empty"}).Draw(t, "answer")
 		c.Actions = append(c.Actions, a)
 	}
 	return c
@@ -242,12 +249,17 @@ func TestC19(t *testing.T) {
 	pbt.Regress(s, "histories", check)
 	// exhaustive: all two-action histories over {A, B, C, [C A], [X B A]} x {right, wrong} for both configurations (ed25519)
 	pbt.Each(s, "histories-exhaustive", func(yield func(c19Case)) {
-		files := [][]string{{"A"}, {"B"}, {"C"}, {"C", "A"}, {"X", "B", "A"}, {"A", "B"}, {"Acase"}}
+		files := [][]string{{"A"}, {"B"}, {"C"}, {"C", "A"}, {"X", "B", "A"}, {"A", "B"}, {"Acase"}, {"otherTypeTagA"}}
 		n := 0
 		for _, mm := range []bool{false, true} {
 			for _, f1 := range files {
-				for _, a1 := range []string{"right", "wrong"} {
-					for _, f2 := range files {
+				for _, a1 := range []string{"right", "wrong", "empty"} {
+					seconds := files
+					if !s.Thorough() {
+						seconds = files[:1+3]
+						seconds = [][]string{{"A"}, {"B"}, {"C", "A"}, {"A", "B"}}
+					}
+					for _, f2 := range seconds {
 						for _, a2 := range []string{"right", "wrong"}[:1+boolInt(s.Thorough())] {
 							if s.Mine(n) {
 								yield(c19Case{Type: "ed25519", Mismatched: mm, Actions: []c19Action{{f1, a1}, {f2, a2}}})
@@ -258,7 +270,7 @@ func TestC19(t *testing.T) {
 				}
 			}
 		}
-		s.St.Exhaust("all two-call histories over 7 files x {right, wrong passphrase}, matched and mismatched key file (ssh-ed25519)", int64(n))
+		s.St.Exhaust("all two-call histories over 8 files x {right, wrong, empty passphrase} first answers, matched and mismatched key file (ssh-ed25519)", int64(n))
 	}, check)
 	pbt.Rapid(s, "histories", s.N(60, 400), c19Gen, check)
 }
